@@ -206,6 +206,11 @@ func (pool *BlockPool) RedoRequest(height int64) {
 	request := pool.requesters[height]
 	pool.mtx.Unlock()
 
+	if request == nil || request.getBlock() == nil {
+		// The peer that served this block has been removed meanwhile (disconnect or
+		// timeout): its requests are being redone already.
+		return
+	}
 	if request.block == nil {
 		gcmn.PanicSanity("Expected block to be non-nil")
 	}
